@@ -153,6 +153,20 @@ def failure_returns(fn, prog, call_node):
     return absint.return_values_after_failure(fn, prog, call_node)
 
 
+def loop_body(fn, hb):
+    """nodes of the natural loop whose head is block hb: the head plus everything that can reach one of the
+    head's back edges without passing the head (a back edge comes from a predecessor the head dominates).
+    Code reached by `break`/`goto` out of the loop is not part of it."""
+    h0 = fn.node(hb, 0)
+    back = [p for p in fn.pred(h0) if p is not h0 and fn.dominated_by(p, [h0])]
+    body = fn.reach_back(back, avoid=[h0]) if back else set()
+    body = set(body)
+    for n in fn.nodes():
+        if n.bid == hb:
+            body.add(n)
+    return body
+
+
 def loop_head(fn, node):
     """block id of the innermost loop whose body contains node (None if not in a loop)"""
     best, head = None, None
@@ -160,10 +174,8 @@ def loop_head(fn, node):
         t = b.get("t")
         if not t or t.get("k") not in ("for", "while", "do"):
             continue
-        if not b.get("s") or b["s"][0] is None or b["s"][0] < 0:
-            continue
-        body = fn.reach([fn.node(b["s"][0], 0)], avoid=[fn.block_end(hb)])
-        if node in body:
+        body = loop_body(fn, hb)
+        if node in body and len(body) > 1:
             if best is None or len(body) < best:
                 best, head = len(body), hb
     return head
